@@ -347,9 +347,63 @@ func genConflictRich(r *rng.R) *rawWS {
 	return w
 }
 
+// genTestonlyRich: acyclic output-less graphs whose only possible defect is a non-test target
+// depending (directly or through a chain of aliases) on a test or testonly target. The restricted
+// targets have several dependants, legitimate ones (test targets, testonly targets) and
+// offending ones, in every alphabetical arrangement.
+func genTestonlyRich(r *rng.R) *rawWS {
+	w := &rawWS{}
+	nRestricted := r.Range(1, 2)
+	var restricted []string // labels users depend on: the restricted targets or aliases of them
+	for i := 0; i < nRestricted; i++ {
+		name := fmt.Sprintf("m%d", i)
+		t := rawTarget{Pkg: "p", Name: name, File: "BUILD.json"}
+		if r.Chance(1, 2) {
+			t.Name = name + "_test"
+		} else {
+			t.Tags = []string{"testonly"}
+		}
+		w.Targets = append(w.Targets, t)
+		l := lbl("p", t.Name)
+		restricted = append(restricted, l)
+		// alias chains of length 1-2 to it
+		for k := 0; k < r.Intn(3); k++ {
+			a := rawAlias{Pkg: rng.Pick(r, []string{"p", ""}), Name: fmt.Sprintf("%c_al%d_%d", 'a'+rune(r.Intn(26)), i, k), Actual: l, File: "BUILD.json"}
+			w.Aliases = append(w.Aliases, a)
+			l = lbl(a.Pkg, a.Name)
+			restricted = append(restricted, l)
+		}
+	}
+	users := r.Range(2, 5)
+	for i := 0; i < users; i++ {
+		// names spread over the alphabet so that offenders sort before and after legitimate users
+		t := rawTarget{Pkg: rng.Pick(r, []string{"p", "", "p/sub"}), Name: fmt.Sprintf("%c%d", 'a'+rune(r.Intn(26)), i), File: "BUILD.json"}
+		switch r.Intn(3) {
+		case 0:
+			t.Name += "_test"
+		case 1:
+			t.Tags = []string{"testonly"}
+		}
+		for _, l := range restricted {
+			if r.Chance(1, 2) {
+				t.Deps = append(t.Deps, l)
+			}
+		}
+		if len(t.Deps) == 0 {
+			t.Deps = []string{rng.Pick(r, restricted)}
+		}
+		w.Targets = append(w.Targets, t)
+	}
+	rng.Shuffle(r, w.Targets)
+	return w
+}
+
 func genRaw(r *rng.R) *rawWS {
 	if r.Chance(1, 3) {
 		return genConflictRich(r)
+	}
+	if r.Chance(1, 4) {
+		return genTestonlyRich(r)
 	}
 	w := &rawWS{}
 	n := r.Range(2, 4)
@@ -435,7 +489,7 @@ func traceLines(p string) int {
 // RunC11: invalid build graphs are rejected before anything runs; valid ones accepted.
 func RunC11(tier string) int {
 	run := report.New("C11", tier, "exploration",
-		"seeded small workspaces (2-4 nodes: targets, test targets, testonly targets, aliases; packages '', p, p/sub; arbitrary edge sets incl. self-loops, alias cycles, undefined and duplicate labels within and across BUILD.json/BUILD.yaml; outputs drawn from spellings of the same places - x, ./x, a/../x, trailing slashes, nested-package aliasing, file inside dir, nested dirs, ../ escapes for file and dir outputs; escaping inputs), each written in two target orders; "+
+		"seeded small workspaces (2-4 nodes: targets, test targets, testonly targets, aliases; packages '', p, p/sub; arbitrary edge sets incl. self-loops, alias cycles, undefined and duplicate labels within and across BUILD.json/BUILD.yaml; outputs drawn from spellings of the same places - x, ./x, a/../x, trailing slashes, nested-package aliasing, file inside dir, nested dirs, ../ escapes for file and dir outputs; escaping inputs), plus two restricted families whose only possible defect is an output conflict resp. a test/testonly dependency reached directly or through alias chains with several legitimate and offending dependants; each written in two target orders; "+
 			"oracle: reference validator written from the statement; `grog check` must accept exactly the valid graphs in both orders, `grog build` must agree and leave an empty command trace on rejection; non-trivial = graph with at least one dependency edge and one output; distinct = defect-class set + shape")
 	st, err := e1.Prepare(run, false)
 	if err != nil {
